@@ -150,6 +150,8 @@ def _early_known(m, b):
     for (ce, inf, sb) in facts_at(m, b):
         if ce[0] == "binop" and ce[1] == "Eq" and deep_strip(ce[2]) == ("param", 1) and fold(ce[3]) in (9, 19) and truth(inf) is True:
             return True
+        if ce == ("param", 1) and inf[0] == "eq" and inf[1] in (9, 19):
+            return True
     # joined from two such edges (|| short circuit): all predecessors chains start at those tests
     preds = m.preds(False)
     st = [b]; seen = set()
@@ -162,6 +164,12 @@ def _early_known(m, b):
             t = m.term(p)
             if t["k"] == "switch":
                 ex = [deep_strip(e) for e in flow(m).term_operand(p, t["d"])]
+                if ex == [("param", 1)]:
+                    # `match signal { SIGSTOP | SIGKILL => .. }`: value edges 9 / 19 only
+                    labs = [lab for tg, lab in m.succ_labeled(p) if tg == x]
+                    if labs and all(lab in ("sw:9", "sw:19") for lab in labs):
+                        continue
+                    return False
                 if all(e[0] == "binop" and e[1] == "Eq" and deep_strip(e[2]) == ("param", 1) and fold(e[3]) in (9, 19) for e in ex):
                     # must be the true edge
                     if any(tg == x and lab == "else" for tg, lab in m.succ_labeled(p)):
